@@ -41,6 +41,9 @@ RULE = ("well-formed multi-channel sequences (<=6 notes, 2-3 channels, notes spa
         "incl. 1 x wrapper states built from plain data (rel, abs, both, stale views, insort, churned); "
         "non-trivial = some note crosses a boundary or an event sits on a boundary")
 ASSUMPTIONS = ["model: SCoda.split (Model/Split.lean), tied by translation (RelTie2 / WrapTie) and sampled by correspondence",
+               "known findings D8 / D18 are PREDICTED (audit round 4, B5 / B6): D8 = the non-note events of the pieces are the source's minus exactly those on the "
+               "final tick; D18 = the pieces show for the torn key what h2bars_util.split_model (a harness-side transcription of the recorded mechanism; equal to the "
+               "code on 250 000 generated inputs) produces — anything else is a violation",
                "`pure`: the source is built from plain data and its fresh views are read attribute by attribute before and after the call and compared with "
                "that data (not through copy())"]
 
@@ -130,7 +133,7 @@ def o_split(inp):
         if on < offt and not any(n[4] == v for n in src):
             fails.append(("velocity", U.Detail(f"fragment ({c},{p_},{on},{offt}) velocity {v}, originals {src}", key=(c, p_), on=on, off=offt, vel=v, originals=src)))
     if non_note(laid) != non_note(timed):
-        fails.append(("others", f"non-note events differ: {non_note(timed)} vs {non_note(laid)}"))
+        fails.append(("others", U.Detail(f"non-note events differ: {non_note(timed)} vs {non_note(laid)}", want=non_note(timed), got=non_note(laid))))
     return fails
 
 
@@ -138,29 +141,49 @@ def setup(ctx):
     ctx.oracle("split", o_split)
 
     def kf_d8(f):
-        return f["clause"] in ("others", "sum", "sound", "exact") and final_boundary_event(
-            [tuple(m) for m in f["input"]["rel"]], f["input"]["caps"]) and f["clause"] == "others"
+        # audit round 4, B6: PREDICTED outcome — the final tick is a cumulative capacity, and the non-note events of the pieces are those of the
+        # source minus exactly the events on that tick (at least one).  A piece that holds such an event twice, loses another event or keeps
+        # one of the final tick is not D8.
+        if f["clause"] != "others":
+            return False
+        d = U.data_of(f)
+        if "got" not in d:
+            return False
+        rel = [tuple(m) for m in f["input"]["rel"]]
+        timed, dur = rel_timed(rel)
+        if dur not in set(bounds_of(f["input"]["caps"])):
+            return False
+        want = non_note(timed)
+        predicted = [e for e in want if e[0] != dur]
+        return predicted != want and list(d["got"]) == predicted
     ctx.kf_predicates["D8"] = kf_d8
 
     def kf_d18(f):
-        # the DAMAGED (channel, pitch) is the key of a zero-length note on a capacity boundary (audit round 3, K5)
+        # audit round 4, B5: the damage is PREDICTED, not only located.  The damaged (channel, pitch) is the key of a zero-length note on a
+        # capacity boundary (round 3, K5) AND what the pieces show for that key is exactly what the recorded mechanism produces
+        # (h2bars_util.split_model: the note-on deferred, the note-off left behind, the never-ending remainder closed and re-struck at every
+        # later boundary with the velocity of the note-on the splitter's table holds, a later note of that key struck on top of it):
+        #   sound    — the sounding intervals of that key in the pieces are the model's;
+        #   closed   — the model leaves that key unclosed in that very piece;
+        #   velocity — the fragment (key, on, off, velocity) is one of the model's fragments.
+        # Any other damage to a note of that key (a note lost, a fragment more, another velocity) is a VIOLATION.
         rel = [tuple(m) for m in f["input"]["rel"]]
-        caps = f["input"]["caps"]
+        caps = list(f["input"]["caps"])
         d = U.data_of(f)
-        torn = [z for z in zero_on_boundary(rel, caps) if "key" in d and (z[0], z[1]) == tuple(d["key"])]
-        if not torn:
+        if f["clause"] not in ("closed", "sound", "velocity") or "key" not in d or f["input"].get("state", "rel") not in ("rel", "both", "stale-abs"):
             return False
-        if f["clause"] in ("closed", "sound"):
-            return True
-        if f["clause"] == "velocity":
-            # the never-ending remainder of the torn note shows up as fragments without an original: one from the tear's tick and — the
-            # remainder being re-struck at every later boundary like any sounding note — one from each later boundary, all with the torn
-            # note-on's velocity (audit round 3, K1c)
-            # (a real note of that key starting on such a boundary is struck together with the remainder: the fragment then has an original
-            # but carries the torn note-on's velocity)
-            bounds = set(bounds_of(caps))
-            return any(d["vel"] == z[3] and d["on"] >= z[2] and d["on"] in bounds for z in torn)
-        return False
+        key = tuple(d["key"])
+        if not any((z[0], z[1]) == key for z in zero_on_boundary(rel, caps)):
+            return False
+        pieces = U.split_model(rel, caps)
+        laid, _ = U.lay_out(pieces)
+        if f["clause"] == "sound":
+            got = None if d["pieces"] is None else [tuple(x) for x in d["pieces"]]
+            return got == sounding(laid).get(key)
+        if f["clause"] == "closed":
+            i = d["piece"]
+            return i < len(pieces) and ("unclosed", key, None) in wf_violations(rel_timed(pieces[i])[0])
+        return (key[0], key[1], d["on"], d["off"], d["vel"]) in notes_of(laid)
     ctx.kf_predicates["D18"] = kf_d18
 
 
